@@ -34,6 +34,7 @@ type modelStore struct { // what is on "disk" for one (dir,name)
 	versions map[int64]*treeVersion
 	latest   int64
 	open     bool
+	mem      map[string][]value // process-local cache (lost on reopen / crash)
 }
 
 type modelTree struct {
@@ -88,6 +89,7 @@ func (w *world) reopen(dir string) {
 	for k, s := range w.stores {
 		if strings.HasPrefix(k, dir+"/") {
 			s.open = false
+			s.mem = nil
 		}
 	}
 }
